@@ -9,10 +9,12 @@ import (
 	"net"
 	"net/http"
 	"net/url"
+	"os"
 	"strconv"
 	"strings"
 	"sync"
 	"sync/atomic"
+	"syscall"
 	"time"
 
 	"github.com/prometheus/client_golang/prometheus"
@@ -41,6 +43,9 @@ type caseRun struct {
 	mp       *martian.Proxy // rig b
 	ln       net.Listener   // rig b (outer listener given to Serve)
 	serveRet chan error     // rig b
+
+	tracker *connTracker         // rig b, family ctl: the proxy's side of every accepted socket
+	reg     *prometheus.Registry // rig a, family runend: the proxy's metrics
 
 	dialMu         sync.RWMutex  // serialises client dials with the listener close / cancel
 	begun          bool          // under dialMu: shutdown has been initiated
@@ -188,7 +193,9 @@ func (cr *caseRun) startOrigins() error {
 		c.originGot(j)
 		size := 64
 		if c.sc.Phase == "origin" && j == c.flightIdx() {
-			if c.sc.Gate {
+			if c.sc.Park {
+				waitOr(cr.finished, 60*time.Second) // never answered while the case runs
+			} else if c.sc.Gate {
 				waitOr(cr.known, 8*time.Second)
 			} else {
 				waitOr(cr.finished, time.Duration(c.sc.DelayMs)*time.Millisecond)
@@ -355,6 +362,12 @@ func (cr *caseRun) startA() error {
 				cfg.Protocol = forwarder.HTTPSScheme
 				cfg.PromRegistry = prometheus.NewRegistry() // the certificate-expiry metric needs one
 			}
+			if cr.c.Family == "runend" {
+				// a second SIGUSR1 during the drain ends it; the registry is read after Run returned
+				cfg.ShutdownSignals = []os.Signal{syscall.SIGUSR1}
+				cr.reg = prometheus.NewRegistry()
+				cfg.PromRegistry = cr.reg
+			}
 		},
 	})
 	if err != nil {
@@ -410,6 +423,11 @@ func (cr *caseRun) startB() error {
 		return err
 	}
 	cr.addr = l.Addr().String()
+	cr.tracker = &connTracker{open: map[int]struct{}{}}
+	if cr.c.Family == "ctl" {
+		// below TLS: martian looks for *tls.Conn at the top
+		l = &trackListener{Listener: l, t: cr.tracker}
+	}
 	cr.ln = l
 	if cr.c.TLS {
 		cert, err := serverCert()
